@@ -271,6 +271,7 @@ class SimWorld:
             guard = guard and not (target.size_remaining - red < 0)
         n_pk = len(self.lab.packages)
         n_ops = len(strat.op_results)
+        via_client = None  # set when the request is routed through a client other than the strategy's usual one
         if kind == "resubmit" and self.cfg.get("discipline"):
             return None  # (acknowledgement discipline is modelled for fresh placements only)
         if kind == "resubmit":
@@ -287,6 +288,7 @@ class SimWorld:
             if op.get("other_client") and len(self.lab.clients) > 1:
                 ci = (ci + 1) % len(self.lab.clients)
             client = self.lab.clients[ci]
+            via_client = client
             before = self.snap_new(target)
             res = simlab.OpResult()
             res.op, res.order, res.target, res.error, res.result = op, target, None, None, None
@@ -330,7 +332,7 @@ class SimWorld:
         new_pk = self.lab.packages[n_pk:]
         rec = {"kind": kind, "op": op, "res": res, "target": target, "before": before, "guard": guard,
                "order": res.order if kind == "place" else target, "accepted": res.result is True and not res.error,
-               "force": bool(op.get("force")), "new_packages": new_pk, "in_txn": transaction is not None}
+               "force": bool(op.get("force")), "new_packages": new_pk, "in_txn": transaction is not None, "via_client": via_client}
         self.requests.append(rec)
         self.judge_request(rec)
         return rec
